@@ -18,16 +18,10 @@ DRIFT = {"Conformance", "UnknownEmitter", "ScannerBlind", "StepFailed", "Scenari
 
 
 def _design(ctx, q, w):
+    # DkgDbPerm follows the code (0600 + chmod of an existing file since the repair of F11): SecretFileOwnerOnly is an
+    # invariant of the main config; a pre-existing group-readable dkg.db (PreModes 0640) is tightened before any write
     ctx.model_check("Secrecy", "MC_Secrecy.cfg", coverage=not q, workers=w)
-    # the permission the code requests for the DKG database (0660): model counterexample of F11,
-    # a verdict only through the file observations below
-    ex = ctx.exhaustive
-    r = ctx.model_check("Secrecy", "MC_Secrecy_f11.cfg", expect_ok=False, workers=w)
-    ctx.exhaustive = ex     # stopping at the expected counterexample is not an incomplete exploration
-    ctx.notes.append("design model with the code's dkg.db permission 0660: SecretFileOwnerOnly %s on the model (F11)"
-                     % ("violated" if r.violated else "holds"))
     if not q:
-        ctx.model_check("Secrecy", "MC_Secrecy_fixed.cfg", workers=w)
         ctx.model_check("Secrecy", "MC_Secrecy_big.cfg", timeout=1500, workers=w)
         ctx.model_check("Secrecy", "MC_Secrecy_two.cfg", timeout=1500, workers=w)     # two nodes, echo of the other's bundles
 
